@@ -226,6 +226,25 @@
     BG_LIST_WF(bg_scratch_row.row) &&                                         \
     bg_scratch_row.row.c.len <= (g)->adjacencyList.r.restLen &&               \
     bg_scratch_row.row.c.up <= (g)->adjacencyList.r.restUp))
+/* a second graph argument */
+#define D_FRESH_WF(g)                                                         \
+  (__CPROVER_is_fresh(g, sizeof(*(g))) && BG_ADJ_FRESH((g)->adjacencyList) && \
+   BG_MAP_FRESH((g)->edgeLabels) && D_WF_SAFE(g))
+/* observed label cells of two graphs agree */
+#define M_AGREE_X(a, b, EQ)                                                   \
+  ((a).s.hasPQ == (b).s.hasPQ && (a).s.hasQP == (b).s.hasQP &&                \
+   (!(a).s.hasPQ || EQ(*(a).valPQ, *(b).valPQ)) &&                            \
+   (!(a).s.hasQP || EQ(*(a).valQP, *(b).valQP)))
+/* row i of g through const access */
+#define D_ROW_C(g, i)                                                         \
+  ((bg_size)(i) == G_P   ? (const bg_list *)(g)->adjacencyList.rowP           \
+   : (bg_size)(i) == G_Q ? (const bg_list *)(g)->adjacencyList.rowQ           \
+                         : (const bg_list *)&bg_scratch_row.row)
+#define D_ROW_LOADED_C(g, i)                                                  \
+  (((bg_size)(i) == G_P || (bg_size)(i) == G_Q) ||                            \
+   (bg_scratch_row.valid && bg_scratch_row.from == &(g)->adjacencyList &&     \
+    bg_scratch_row.row.idx == (bg_size)(i) && bg_scratch_row.row.bound <= (g)->size && \
+    BG_LIST_WF(bg_scratch_row.row)))
 /* WF without the clean-cache clause */
 #define D_WF_LOOP(g) (D_WF_SAFE(g) && bg_cur_adj == &(g)->adjacencyList)
 /* cursor j is a valid position of row r */
